@@ -3,6 +3,8 @@
 \*   fixes = {} (as-is)  : FindLiveOrDev - every violation of FindLive is explained by a named deviation
 \*   fixes = all four    : Repaired      - FindLive holds and no deviation is reachable
 \*   always              : FindClosed, IndexSound
+\*   INVS = Repaired LookupPure (as-is lookups are read-only)   |   with WLOOKUP = TRUE (the writing-lookup
+\*   design) INVS is empty: FindLive then fails only through the deviation "lookupErased"
 \* Lifetimes are remaining ticks (TTL = 2, heartbeat period 1 tick): sessions of any length are covered.
 CONSTANTS
   Nodes = @@NODES@@
@@ -14,10 +16,12 @@ CONSTANTS
   Shapes = @@SHAPES@@
   FixSets = @@FIXSETS@@
   Causes = {"peer", "sweep"}
+  Lookups = @@LOOKUPS@@
+  WritingLookup = @@WLOOKUP@@
   Emit = FALSE
   Only = "all"
 INIT Init
 NEXT Next
 VIEW view
-INVARIANTS TypeOK IndexSound FindLiveOrDev Repaired FindClosed
+INVARIANTS TypeOK IndexSound FindLiveOrDev FindClosed @@INVS@@
 CHECK_DEADLOCK FALSE
